@@ -65,7 +65,7 @@ CHECKS = {
     "C14": dict(
         engine="E5-services",
         technique="Coq proof over functions REGENERATED from /repo/src by a fail-closed Python-ast translator (pure.py) and proved equal to the model + Coq proof (lifecycle state machine: start idempotent, NO_TRACE never writes hooks over all op sequences and faults, shutdown restores the pre-start hooks and attempts every step for every fault oracle, inert afterwards; unguarded discipline refuted) + in-Coq correspondence with the real Deep/TriggerHandler start/shutdown",
-        text="13 Coq theorems over Lifecycle.v: a repeated start is the identity; with tracing disabled no sequence of agent "
+        text="16 Coq theorems over Lifecycle.v: a repeated start is the identity; a start that FAILS after the hooks were installed leaves the hooks as they were and a later start / shutdown cycle still restores them (the variant without that clean-up is refuted by witness); with tracing disabled no sequence of agent "
              "operations with any faults changes either hook register; start followed by shutdown leaves both registers as "
              "they were, whatever fails, with polling stopped, started=false and the handler inert; a shutdown of a started "
              "agent attempts hooks, drain, stop-poll and EVERY plugin in order for every fault oracle; an inert handler acts "
